@@ -225,6 +225,7 @@ def expand(prop, profile_name, base_seed, index, extra, run):
 
 
 THOROUGH_FACTOR = 10
+GRID_BUDGET = 300000
 
 
 def jobs_for(prop, tier):
@@ -235,7 +236,13 @@ def jobs_for(prop, tier):
             # machine budget: all 18 thorough checks together have to fit into a few hours of this 16-core sandbox
             n = min(n, quick * THOROUGH_FACTOR)
         size = PROFILES[name][1].get('grid_size', grid_total)
-        if n == 'grid':
+        if n == 'grid' and size() > GRID_BUDGET:
+            # too large for the machine budget: every k-th point (k co-prime with the window's period, all strata hit)
+            stride = -(-size() // GRID_BUDGET)
+            while stride > 1 and size() % stride == 0:
+                stride += 1
+            jobs.extend((name, i, {'grid_stride': stride}) for i in range(size() // stride))
+        elif n == 'grid':
             jobs.extend((name, i, None) for i in range(size()))  # the whole window, every point once
         elif PROFILES[name][1].get('grid'):
             # a stride through the grid that is co-prime with its period so that all strata are hit
